@@ -19,7 +19,7 @@ type c14Tok struct {
 	text string
 }
 
-var c14Terms = []string{"2d6", "d20", "3d6kh2", "4d6dl1", "2d20kl1", "d20优势", "d20劣势", "3d6min3", "2d6max4", "f", "b2", "p1", "b", "5a8", "4c8", "(2d1)d(3d1)", "d4d6", "2d", "d", "3a8m6k4", "2c8m12", "力量", "x1", "$t", "敏捷:当前", "1d1", "6d1k2", "10a0", "3D6K1", "2d6q1"}
+var c14Terms = []string{"2d6", "d20", "3d6kh2", "4d6dl1", "2d20kl1", "d20优势", "d20劣势", "3d6min3", "2d6max4", "f", "b2", "p1", "b", "5a8", "4c8", "(2d1)d(3d1)", "d4d6", "2d", "d", "3a8m6k4", "2c8m12", "力量", "x1", "$t", "敏捷:当前", "1d1", "6d1k2", "10a0", "3D6K1", "2d6q1", "3d6dl5", "2d6dh4", "4d6dl4", "3d6kh5", "2d4d6k1", "d4d6d8", "(1d2)d3d4", "5d6dh2", "3d20kl2"}
 
 func c14Gen(r *fw.Rand, depth int) []c14Tok {
 	if depth == 0 || r.P(1, 3) {
@@ -342,6 +342,26 @@ func c14Case(w *fw.W, idx int, r *fw.Rand) {
 		}
 		w.Count("spans_checked", 1)
 		w.SetAdd("tags", s.Tag)
+	}
+	// re-running the parsed program: the text must describe the new run
+	if r.P(1, 4) {
+		var err2 error
+		pv, st = fw.Guard(func() { err2 = vm.RunAfterParsed() })
+		if pv != nil {
+			w.Violate(idx, "panic", fw.PanicKey(pv, st), desc, "RunAfterParsed: "+fmt.Sprint(pv), nil)
+		} else if err2 == nil {
+			d3 := vm.GetDetailText()
+			ret3, _ := vm.Ret.ReadInt()
+			if st3, ok := stripAnnotations(d3); ok && d3 != "" {
+				p3 := &arith{s: []rune(st3)}
+				v3 := p3.expr()
+				p3.ws()
+				if !p3.err && p3.pos == len(p3.s) && v3 != int64(ret3) {
+					w.Violate(idx, "mismatch", "detail|stale-after-rerun", desc, fmt.Sprintf("after a second RunAfterParsed the result is %d but the process text %q evaluates to %d", ret3, d3, v3), nil)
+				}
+			}
+			w.Count("reruns_checked", 1)
+		}
 	}
 	w.Note(fw.Hash64(src, tail))
 	if idx%5000 == 2 {
